@@ -72,14 +72,14 @@ theorem expr_ok (env : Env) : (n : Node) → covE env n = true → Sem (genExpr 
     exact Sem_loc i
   | .num i a b c d e, _ => by
     rw [genExpr]
-    have := Sem_numArm i a b c d e
+    have := Sem_numArm (K := Straight) i a b c d e
     simp only [ty?_num]
     sem
   | .neg i lhs, h => by
     rw [genExpr]
     simp only [covE, Bool.and_eq_true, beq_iff_eq] at h
     have ih := expr_ok env lhs h.1
-    have := Sem_negArm i ih
+    have := Sem_negArm (K := Straight) i ih
     simp only [ty?_neg, xOf_eq_of_isLD h.2]
     sem
   | .var i v, _ => by
@@ -89,7 +89,7 @@ theorem expr_ok (env : Env) : (n : Node) → covE env n = true → Sem (genExpr 
   | .member i lhs mem, h => by
     rw [genExpr]
     simp only [covE] at h
-    have := Sem_memberArm i (addr_ok env lhs h) mem env
+    have := Sem_memberArm (K := Straight) i (addr_ok env lhs h) mem env
     simp only [ty?_member]
     sem
   | .deref i lhs, h => by
@@ -109,7 +109,7 @@ theorem expr_ok (env : Env) : (n : Node) → covE env n = true → Sem (genExpr 
     rw [genExpr]
     simp only [covE, Bool.and_eq_true, beq_iff_eq] at h
     obtain ⟨⟨⟨h1, h2⟩, h3⟩, h4⟩ := h
-    have := Sem_assignArm env i (bitfieldOf lhs) (addr_ok env lhs h1) (expr_ok env rhs h2)
+    have := Sem_assignArm (K := Straight) env i (bitfieldOf lhs) (addr_ok env lhs h1) (expr_ok env rhs h2)
     rw [bfX_zero h4] at this
     simp only [ty?_assign, xOf_eq_of_isLD h3]
     sem
@@ -130,13 +130,13 @@ theorem expr_ok (env : Env) : (n : Node) → covE env n = true → Sem (genExpr 
   | .memzero i v, h => by
     rw [genExpr]
     simp only [covE, Bool.not_eq_true'] at h
-    have := Sem_memzeroArm env v
+    have := Sem_memzeroArm (K := Straight) env v
     simp only [ty?_memzero, xOf_zero h]
     sem
   | .not i lhs, h => by
     rw [genExpr]
     simp only [covE, Bool.and_eq_true, Bool.not_eq_true'] at h
-    have := Sem_notArm lhs.ty? (expr_ok env lhs h.1)
+    have := Sem_notArm (K := Straight) lhs.ty? (expr_ok env lhs h.1)
     simp only [ty?_not, xOf_zero h.2]
     sem
   | .bitnot i lhs, h => by
@@ -155,7 +155,7 @@ theorem expr_ok (env : Env) : (n : Node) → covE env n = true → Sem (genExpr 
     have ih2 := expr_ok env rhs h2
     rw [xOf_zero h3] at ih1
     rw [xOf_zero h4] at ih2
-    have := Sem_exchArm env lhs.ty? ih1 ih2
+    have := Sem_exchArm (K := Straight) env lhs.ty? ih1 ih2
     simp only [ty?_exch, xOf_zero h5]
     sem
   | .labelVal i a b, h => by
@@ -183,7 +183,7 @@ theorem expr_ok (env : Env) : (n : Node) → covE env n = true → Sem (genExpr 
       have hr : isLD rhs.ty? = true := by rw [← h4]; exact hld
       rw [xOf_one hld] at ih1
       rw [xOf_one hr] at ih2
-      have := Sem_binopLd op ih1 ih2
+      have := Sem_binopLd (K := Straight) op ih1 ih2
       simp only [hk]
       refine this.cast (by omega) ?_ (by omega)
       by_cases hc : isCmp op = true
@@ -199,9 +199,9 @@ theorem expr_ok (env : Env) : (n : Node) → covE env n = true → Sem (genExpr 
       have hi : isLD i.ty = false := by rw [h5, hld']; rfl
       rw [xOf_zero hld'] at ih1
       rw [xOf_zero hr] at ih2
-      have f1 := Sem_binopFlo "ss" (Or.inl rfl) op ih1 ih2
-      have f2 := Sem_binopFlo "sd" (Or.inr rfl) op ih1 ih2
-      have f3 := Sem_binopInt i op lty ih1 ih2
+      have f1 := Sem_binopFlo (K := Straight) "ss" (Or.inl rfl) op ih1 ih2
+      have f2 := Sem_binopFlo (K := Straight) "sd" (Or.inr rfl) op ih1 ih2
+      have f3 := Sem_binopInt (K := Straight) i op lty ih1 ih2
       rw [xOf_zero hi]
       split
       · exact f1.cast (by omega) (by omega) (by omega)
@@ -216,7 +216,7 @@ theorem expr_ok (env : Env) : (n : Node) → covE env n = true → Sem (genExpr 
     rw [xOf_zero h2] at ih
     have hs : StructArgsOK ((genArgs env args).map (·.ty)) := by
       rw [genArgs_tys]; exact structArgsOK_of_b args h5
-    have := Sem_funcallArm env i rb (genArgs env args) (Sem_isAllocaCall lhs) (Ret_isAllocaCall h3) ih
+    have := Sem_funcallArm (K := Straight) env i rb (genArgs env args) (Sem_isAllocaCall lhs) (Ret_isAllocaCall h3) ih
       (args_ok env args h4) hs
     simp only [ty?_funcall]
     sem
@@ -253,7 +253,7 @@ theorem addr_ok (env : Env) : (n : Node) → covA env n = true → Sem (genAddr 
     obtain ⟨⟨⟨h1, h2⟩, h3⟩, h4⟩ := h
     have ih2 := expr_ok env rhs h2
     rw [xOf_zero h3] at ih2
-    have := Sem_assignArm env i (bitfieldOf lhs) (addr_ok env lhs h1) ih2
+    have := Sem_assignArm (K := Straight) env i (bitfieldOf lhs) (addr_ok env lhs h1) ih2
     rw [bfX_zero h4] at this
     sem
   | .funcall i lhs fty rb args, h => by
@@ -263,7 +263,7 @@ theorem addr_ok (env : Env) : (n : Node) → covA env n = true → Sem (genAddr 
     rw [xOf_zero h2] at ih
     have hs : StructArgsOK ((genArgs env args).map (·.ty)) := by
       rw [genArgs_tys]; exact structArgsOK_of_b args h5
-    have := Sem_funcallArm env i rb (genArgs env args) (Sem_isAllocaCall lhs) (Ret_isAllocaCall h3) ih
+    have := Sem_funcallArm (K := Straight) env i rb (genArgs env args) (Sem_isAllocaCall lhs) (Ret_isAllocaCall h3) ih
       (args_ok env args h4) hs
     rw [xOf_zero h6] at this
     cases rb with
@@ -324,9 +324,9 @@ theorem stmts_ok (env : Env) : (l : NodeList) → covSs env l = true → Sem (ge
 end
 
 /-- what `Sem` says, unfolded (for the statements in Props/C20.lean) -/
-theorem Sem.elim {m : M α} (h : Sem m r x d) {s : St} {a : α} {s' : St} {ls : List Line}
-    (hm : m s = .ok (a, s', ls)) : delta ls = some ⟨r, x⟩ ∧ s'.depth = s.depth + d := by
-  unfold Sem at h
+theorem SemP.elim {K : List Line → Int → Int → Prop} {m : M α} (h : SemP K m r x d) {s : St} {a : α} {s' : St} {ls : List Line}
+    (hm : m s = .ok (a, s', ls)) : K ls r x ∧ s'.depth = s.depth + d := by
+  unfold SemP at h
   exact h s a s' ls hm
 
 end ChibiVerif.Lemmas.C20
